@@ -43,6 +43,7 @@ func checkC02(ctx *Ctx, r *Report) {
 	c02GoUnfoldLeafPointer(ctx, r)
 	c02GoFieldNamesNotMethods(ctx, r)
 	c09GoEnvelopeConstants(ctx, r)
+	c14GoConverterBuffer(ctx, r)
 	c02RuntimeGuard(ctx, r)
 	c02SortedSearch(ctx, r)
 	c02SortedSearchSelfTest(ctx, r)
